@@ -94,6 +94,9 @@ func (e *Encoder) uf(name string, argSorts []string, resSort string, args ...str
 
 // constIntOf: if term t is an integer literal in the current mode, return its value.
 func (e *Encoder) litValue(t string) (*big.Int, bool) {
+	if d, ok := curDefs[t]; ok && isLiteralTerm(d) {
+		t = d
+	}
 	if strings.HasPrefix(t, "(_ bv") {
 		var n string
 		var w int
@@ -302,6 +305,22 @@ func (e *Encoder) binop(op token.Token, x, y string, t types.Type, yt types.Type
 				return fmt.Sprintf("(bvuge %s %s)", x, y), nil
 			}
 		} else {
+			if op == token.ADD || op == token.SUB || op == token.MUL {
+				if a, ok1 := e.litValue(x); ok1 && !strings.HasPrefix(x, "(_ bv") {
+					if b, ok2 := e.litValue(y); ok2 && !strings.HasPrefix(y, "(_ bv") {
+						r := new(big.Int)
+						switch op {
+						case token.ADD:
+							r.Add(a, b)
+						case token.SUB:
+							r.Sub(a, b)
+						default:
+							r.Mul(a, b)
+						}
+						return e.ilitBig(r), nil
+					}
+				}
+			}
 			switch op {
 			case token.ADD:
 				return fmt.Sprintf("(+ %s %s)", x, y), nil
